@@ -118,3 +118,58 @@ impl Graph {
         crate::verif::push(o);
     }
 }
+
+/// The helpers the code generators use to turn the byte classes of a state's edges into tests,
+/// applied to classes given as sorted, non-adjacent inclusive ranges. One JSON object:
+/// per class its [super::Comparisons] (`lo`, `hi`, `except`, `ops` = `count_ops()`) and its
+/// 256-entry table as a list of the bytes set; `can_error` of a state with one edge per class;
+/// `merged` = the ranges of the first class after merging all the others into it.
+pub(crate) fn edge_impl(classes: &[Vec<(u8, u8)>]) -> String {
+    use super::{ByteClass, State, StateData};
+
+    let classes: Vec<ByteClass> = classes
+        .iter()
+        .map(|ranges| ByteClass {
+            ranges: ranges.iter().map(|&(lo, hi)| lo..=hi).collect(),
+        })
+        .collect();
+    let mut o = String::from("{\"classes\":[");
+    for (i, class) in classes.iter().enumerate() {
+        if i > 0 {
+            o.push(',');
+        }
+        o.push_str("{\"cmp\":[");
+        for (j, cmp) in class.impl_with_cmp().iter().enumerate() {
+            if j > 0 {
+                o.push(',');
+            }
+            let _ = write!(
+                o,
+                "{{\"lo\":{},\"hi\":{},\"ops\":{},\"except\":{:?}}}",
+                cmp.range.start(),
+                cmp.range.end(),
+                cmp.count_ops(),
+                cmp.except
+            );
+        }
+        let table = class.to_table();
+        let set: Vec<usize> = (0..256).filter(|&b| table[b]).collect();
+        let _ = write!(o, "],\"table\":{set:?}}}");
+    }
+    let state = StateData {
+        normal: classes
+            .iter()
+            .enumerate()
+            .map(|(i, class)| (class.clone(), State(i + 1)))
+            .collect(),
+        ..Default::default()
+    };
+    let _ = write!(o, "],\"can_error\":{}", state.can_error());
+    let mut merged = classes.first().cloned().unwrap_or(ByteClass { ranges: Vec::new() });
+    for other in classes.iter().skip(1) {
+        merged.merge(other);
+    }
+    let ranges: Vec<(u8, u8)> = merged.ranges.iter().map(|r| (*r.start(), *r.end())).collect();
+    let _ = write!(o, ",\"merged\":{ranges:?}}}");
+    o.replace('(', "[").replace(')', "]")
+}
